@@ -89,6 +89,8 @@ type Env struct {
 	// its property sets this (it is then only counted).
 	StrandedIsViolation bool
 	sample              string
+	locals              []*localStats
+	rootStats           localStats
 }
 
 //go:norace
@@ -101,14 +103,46 @@ func (e *Env) Violatef(class, sig, format string, a ...any) {
 	e.S.Logf("VIOLATION %s %s %s", class, sig, v.Msg)
 }
 
-//go:norace
-func (e *Env) Fault(kind string) { e.out.Faults[kind]++ }
+type localStats struct {
+	faults, probes map[string]int
+	checks         int
+}
 
+// local returns the calling goroutine's private counters (no sharing between
+// goroutines, so the harness adds no happens-before edges and no races of its
+// own); the root merges them at the end.
+//
 //go:norace
-func (e *Env) Probe(name string) { e.out.Probes[name]++ }
+func (e *Env) local() *localStats {
+	g := simrt.Cur()
+	if g == nil {
+		return &e.rootStats
+	}
+	if g.Local == nil {
+		ls := &localStats{faults: map[string]int{}, probes: map[string]int{}}
+		g.Local = ls
+		e.locals = append(e.locals, ls)
+	}
+	return g.Local.(*localStats)
+}
 
-//go:norace
-func (e *Env) Check() { e.out.Checks++ }
+func (e *Env) Fault(kind string) { e.local().faults[kind]++ }
+
+func (e *Env) Probe(name string) { e.local().probes[name]++ }
+
+func (e *Env) Check() { e.local().checks++ }
+
+func (e *Env) mergeStats() {
+	for _, ls := range append(e.locals, &e.rootStats) {
+		for k, v := range ls.faults {
+			e.out.Faults[k] += v
+		}
+		for k, v := range ls.probes {
+			e.out.Probes[k] += v
+		}
+		e.out.Checks += ls.checks
+	}
+}
 
 //go:norace
 func (e *Env) Avoids(name string) bool {
@@ -127,10 +161,14 @@ func (e *Env) SetSample(s string) { e.sample = s }
 //
 //go:norace
 func (e *Env) Go(name string, f func()) *simrt.G {
-	g := e.S.GoApp(name, f)
-	e.apps = append(e.apps, g)
-	return g
+	return e.S.GoApp(name, f, e.addApp)
 }
+
+//go:norace
+func (e *Env) addApp(g *simrt.G) { e.apps = append(e.apps, g) }
+
+//go:norace
+func (e *Env) appsDone() bool { return simrt.AllDone(e.apps...) }
 
 type doneWaiter struct{ gs []*simrt.G }
 
@@ -142,6 +180,7 @@ func (w doneWaiter) Ready() bool { return simrt.AllDone(w.gs...) }
 //go:norace
 func (e *Env) Wait(gs ...*simrt.G) {
 	simrt.YieldWait("wait", doneWaiter{gs})
+	simrt.Joined(gs...)
 }
 
 // WaitTimeout waits for gs for at most d of simulated time; reports whether all finished.
@@ -159,6 +198,7 @@ func (e *Env) WaitTimeout(d time.Duration, gs ...*simrt.G) bool {
 		}
 		simrt.Sleep(step)
 	}
+	simrt.Joined(gs...)
 	return true
 }
 
@@ -168,12 +208,19 @@ func (e *Env) AtEnd(f func()) { e.finals = append(e.finals, f) }
 // ---------------------------------------------------------------------------
 
 // Execute runs one plan in a fresh bubble and returns its outcome.
-func Execute(t *testing.T, p *Plan, trace bool) (out *Outcome) {
+func Execute(t *testing.T, p *Plan, trace bool) *Outcome {
+	out := &Outcome{Prop: p.Prop, Seed: p.Seed, Faults: map[string]int{}, Probes: map[string]int{}}
+	// a sub-test per run: a race report fails the bubble's T and makes
+	// synctest.Test Goexit its caller; that must not end the worker loop.
+	t.Run(fmt.Sprintf("%s-%d", p.Prop, p.Seed), func(st *testing.T) { execute(st, p, trace, out) })
+	return out
+}
+
+func execute(t *testing.T, p *Plan, trace bool, out *Outcome) {
 	prop := registry[p.Prop]
-	out = &Outcome{Prop: p.Prop, Seed: p.Seed, Faults: map[string]int{}, Probes: map[string]int{}}
 	if prop == nil {
 		out.Tooling = "unknown property " + p.Prop
-		return out
+		return
 	}
 	defer func() {
 		if r := recover(); r != nil {
@@ -193,10 +240,9 @@ func Execute(t *testing.T, p *Plan, trace bool) (out *Outcome) {
 		}
 		s := simrt.New(simrt.Config{Seed: p.Seed, Tape: p.Tape, Strategy: p.Strategy, Trace: trace, Limit: limit, MaxSteps: p.MaxSteps, PoolDrop: p.PoolDrop})
 		simrt.S = s
-		e := &Env{S: s, Plan: p, out: out}
-		main := s.GoApp("main", func() { prop.Run(e) })
-		e.apps = append(e.apps, main)
-		res := s.Run(func() bool { return simrt.AllDone(e.apps...) })
+		e := &Env{S: s, Plan: p, out: out, rootStats: localStats{faults: map[string]int{}, probes: map[string]int{}}}
+		s.GoApp("main", func() { prop.Run(e) }, e.addApp)
+		res := s.Run(e.appsDone)
 		out.Truncated = res.Truncated
 		for _, pr := range s.Panics {
 			cls, sig := "panic", "panic:"+pr.Site+":"+firstLine(pr.Value)
@@ -207,7 +253,7 @@ func Execute(t *testing.T, p *Plan, trace bool) (out *Outcome) {
 			}
 			e.Violatef(cls, sig, "%s panicked: %s\n%s", pr.G, pr.Value, pr.Stack)
 		}
-		if !res.Truncated && len(s.Panics) == 0 && !simrt.AllDone(e.apps...) {
+		if !res.Truncated && len(s.Panics) == 0 && !e.appsDone() {
 			app, _ := s.Live()
 			var where []string
 			for _, g := range app {
@@ -228,6 +274,8 @@ func Execute(t *testing.T, p *Plan, trace bool) (out *Outcome) {
 				f()
 			}
 		}
+		s.AcquireAll()
+		e.mergeStats()
 		out.Hash = s.Hash()
 		out.Steps = s.Steps
 		out.Switches = s.NSwitch
@@ -255,7 +303,6 @@ func Execute(t *testing.T, p *Plan, trace bool) (out *Outcome) {
 		s.Kill()
 		simrt.S = nil
 	})
-	return out
 }
 
 func siteSet(gs []*simrt.G) []string {
